@@ -343,7 +343,7 @@ func Run(tier string) int {
 	log.SetOutput(io.Discard)
 	rep := mc.NewReporter("C05", tier, "model_checking")
 	rep.Driver = "c05"
-	budget := 80 * time.Second
+	budget := 120 * time.Second
 	if tier == "thorough" {
 		budget = 13 * time.Minute
 	}
